@@ -32,7 +32,8 @@ def check(run):
     run.log("%d fail-and-recover scripts" % len(hr))
     hs += hr
     # every third script runs "dynamic": subscriptions made after each topic was published once, one removed before a last publish
-    scns = [inboundlib.scenario(h, [1, 2, 3], dynamic=(i % 3 == 2), empty=(i % 4 == 1)) for i, h in enumerate(hs)]
+    # round 8: four in seven scripts use topic names with a level that starts with '$' below the first level, subscribed through + or #
+    scns = [inboundlib.scenario(h, [1, 2, 3], dynamic=(i % 3 == 2), empty=(i % 4 == 1), shape=[0, 1, 2, 3, 0, 1, 3][i % 7]) for i, h in enumerate(hs)]
     run.log("%d distribution scripts from TLC" % len(scns))
     tpath, crashes = brokerlib.execute(run, scns, "c14", shards=12)
     if crashes:
@@ -47,7 +48,7 @@ def check(run):
         "distinct_nontrivial": faulty,
         "rule": "scenario = TLC-generated script of publishes (QoS 0/1/2) from publishers on nodes 1 and 2 to topics hosted on {1,2}, {2}, {1}, {2,3}, {} of three "
                 "real nodes, with failures of any destination's log or RPC toggled between steps; in every third scenario the subscriptions are made only "
-                "after every topic has been published once, and one is removed before a last publish; every fourth scenario ends with a publish whose payload is empty; plus every QoS 1 script of depth 4 with >= 2 publishes and >= 2 failure toggles on two nodes (fail, recover, unrelated publish); non-trivial = contains an injected failure",
+                "after every topic has been published once, and one is removed before a last publish; every fourth scenario ends with a publish whose payload is empty; four in seven scenarios name the topics t/<m>/$s, t/$<m>/v, t/<m>/$s/z and subscribe through + / # (legal, unusual names); plus every QoS 1 script of depth 4 with >= 2 publishes and >= 2 failure toggles on two nodes (fail, recover, unrelated publish); non-trivial = contains an injected failure",
         "events_validated": nev, "trace_spec_states": tstates, "rejections": len(rejected),
         "samples": [hs[0], hs[len(hs) // 2], {"scenario": scns[-1]}],
     }, ["the publishing node's view of subscriptions is up to date (gossip is delivered between steps)",
